@@ -6,9 +6,16 @@ def run(ctx):
     from checks import graph_runner
 
     cov = graph_runner.run_property(ctx, "C21")
+    from checks import c21_legs
+
+    cov["call_shapes_checked"] = c21_legs.shapes_leg(ctx)
+    cov["duplicate_expression_forms"] = c21_legs.dup_leg(ctx)
+    cov["cache_replay_histories"], cov["cache_replay_links_seen"] = c21_legs.replay_leg(ctx)
     cov["rule"] = ("every generated program of size <= 4 that succeeds; for every evaluated task call site: one Argument row per passed parameter "
                    "(positional by position, keyword and defaulted parameters by key) whose value equals what the task received, and upstream "
                    "links with required <= recorded <= allowed, where required = the task calls that produce the argument through task calls, lazy "
-                   "operators, getitem, nout and containers (and the taken cond branch), allowed additionally the cond predicate")
+                   "operators, getitem, nout and containers (and the taken cond branch), allowed additionally the cond predicate; plus every binding of 5 signatures (defaults, *args with keyword-only defaults, "
+                   "keyword-only, **kwargs) against inspect.signature, and 12 connecting forms (direct, cond, seq, catch, containers, operators, "
+                   "keyword) whose consumer is edited so it runs again while parent and producers are replayed from the cache: links equal those of an empty backend")
     return {"coverage": cov, "assumptions": ["dataflow through catch/map_/flat_map/apply_func arguments is not modelled (arguments built from them are "
                                              "only checked for value and row presence)"]}
